@@ -215,3 +215,15 @@ Definition hide_node (s : schema) : schema :=
                 else d) s.
 Definition merge_sanitized (inputs : list input) : merge_result :=
   match merge inputs with MOk t tm => MOk (hide_node t) tm | r => r end.
+
+(* ---- planner/context.go: PlanningContext.GetURL — how the planner reads the routing table ---- *)
+Definition internal_service : string := "%#!".                 (* common.InternalServiceName *)
+Inductive route := RUrl (u : string) | RNoType | RNoField.
+Definition get_url (tm : tmap) (ty fld fb : string) : route :=
+  if is_builtin fld then RUrl fb
+  else match tm_is_node tm ty with
+       | None => RNoType
+       | Some n =>
+           if negb n && negb (fb =? internal_service) && negb (is_root ty) then RUrl fb
+           else match tm_get tm ty fld with Some u => RUrl u | None => RNoField end
+       end.
